@@ -18,6 +18,9 @@ pub struct RunReport {
     pub execs: u64,
     pub harness_error: Option<String>,
     pub sample: Option<serde_json::Value>,
+    /// the scenario with every lazily made choice frozen (explicit switch list), for the replay file
+    #[serde(default)]
+    pub replay_scenario: Option<Scenario>,
 }
 
 impl RunReport {
@@ -74,6 +77,7 @@ pub trait Property: Sync {
 pub fn all() -> Vec<Box<dyn Property>> {
     vec![
         Box::new(crate::props::c07::C07),
+        Box::new(crate::props::c19::C19),
         Box::new(crate::props::c20::C20),
     ]
 }
